@@ -41,7 +41,7 @@ C0 = 299792458.0
 
 def plan(tier, seed):
     if tier == 'quick':
-        kinds = ['net'] * 96 + ['line'] * 48 + ['raman'] * 40
+        kinds = ['net'] * 384 + ['line'] * 192 + ['raman'] * 128
     else:
         kinds = ['net'] * 3000 + ['line'] * 2400 + ['raman'] * 1500
     cases = []
